@@ -101,6 +101,16 @@ func (*intScalar) CoerceIn(v interface{}) (interface{}, error) {
 // CoerceOut coerces a result value into a type for the scalar.
 func (t *intScalar) CoerceOut(v interface{}) (interface{}, error) {
 	var err error
+	// Only a number that fits in 32 bits can be an Int. Anything else is an
+	// error and not wrapped around. (A fraction is dropped.)
+	if f, ok := numberAsFloat(v); ok && (math.IsNaN(f) || math.Trunc(f) < math.MinInt32 || math.MaxInt32 < math.Trunc(f)) {
+		return nil, newCoerceErr(v, "Int")
+	}
+	if s, ok := v.(string); ok {
+		if i, e := strconv.ParseInt(s, 10, 64); e == nil && (i < math.MinInt32 || math.MaxInt32 < i) {
+			return nil, newCoerceErr(v, "Int")
+		}
+	}
 	switch tv := v.(type) {
 	case nil:
 		// remains nil
